@@ -523,7 +523,22 @@ func c06RunRoute(c *Case) (out string, fails []Fail) {
 		}
 	}
 	fails = append(fails, c06CheckPipes(rec.pipes, "")...)
-	// initial IDs: an ID that was produced by a key tuple of this arity must give a pipeline for that tuple
+	// initial ids (queues found at startup): an id that splits into n key values must have a pipeline for exactly these values
+	for _, id := range inits {
+		keys := strings.Split(id, ",")
+		if len(keys) != n {
+			continue
+		}
+		found := false
+		for _, p := range rec.pipes {
+			if c06EqTuple(p.labels, keys) {
+				found = true
+			}
+		}
+		if !found {
+			fails = append(fails, Fail{"c06:init:missing-pipeline", fmt.Sprintf("initial pipeline id %q (keys %s) has no pipeline", id, c06Q(keys))})
+		}
+	}
 	return out, fails
 }
 
@@ -733,6 +748,7 @@ func c06RunDisk(c *Case) (out string, fails []Fail) {
 			}
 		}()
 		listed = cfg.ListBufferIDs(logger.Root(), c06MatchChunk, promreg.NewMetricFactory("c06l_", nil, nil))
+		sort.Strings(listed) // the order is not part of the contract: StartOrchestrator turns the ids into a set
 		seen := map[string]bool{}
 		var ids []string
 		for _, id := range listed { // StartOrchestrator passes the set of listed ids
@@ -804,8 +820,10 @@ func c06RunDisk(c *Case) (out string, fails []Fail) {
 			reported[k] = true
 			class := "other"
 			switch {
-			case d == "-":
+			case d == "-" && strings.Join(t, ",") == "":
 				class = "empty-id"
+			case d == "-":
+				class = "root-dir-for-nonempty-id"
 			case strings.Contains(strings.Join(t, ""), ","):
 				class = "comma"
 			case umask&0o004 != 0:
@@ -891,6 +909,7 @@ func c06RunList(c *Case) (out string, fails []Fail) {
 			}
 		}()
 		listed = cfg.ListBufferIDs(logger.Root(), c06MatchChunk, promreg.NewMetricFactory("c06l_", nil, nil))
+		sort.Strings(listed) // the order is not part of the contract
 		return false
 	}()
 	for i := 0; i < ne; i++ { // so that RemoveAll can descend
